@@ -11,6 +11,8 @@
 (*   eos   the end-of-stream flag                                          *)
 (*   ws    the block flags of the packets that END on it (audio pages)     *)
 (*   cont  the first of them began on an earlier page                      *)
+(*   tail  the page ends in the middle of a packet                         *)
+(*   pn    its page sequence number                                        *)
 (*   k0    ghost: ordinal (1..) of the first of them among the audio       *)
 (*         packets of its link                                             *)
 (* LT is the link table of VFOpen (off ser doff first len), BL[i] = <<bs0, *)
@@ -23,7 +25,7 @@
 (*   link  current_link (1-based), ser current_serialno                    *)
 (*   off   pcm_offset                                                      *)
 (*   d     the decoder (Block), meaningful while rs = 4                    *)
-(*   os    the ogg stream state: [ser, q, pno, fresh]; q = packets ready,  *)
+(*   os    the ogg stream state: [ser, q, pno, part, pn]; q = packets ready,  *)
 (*         each [w, g, eos, k] (w = -1: a header packet)                   *)
 (*   pos   vf->offset, where the next page is looked for                   *)
 (* Every call returns [ret, vf] (+ what it delivered).  A loop that uses   *)
@@ -49,16 +51,21 @@ LinkOfSerial(LT, s) == LET c == { i \in 1..Len(LT) : LT[i].ser = s } IN IF c = {
 LinkEnd(PG, LT, i) == IF i = Len(LT) THEN DataEnd(PG) ELSE LT[i + 1].off                                 \* offsets[link+1]
 
 (* ------------------------------ ogg stream ------------------------------ *)
-OsReset(ser) == [ser |-> ser, q |-> <<>>, pno |-> 0, fresh |-> TRUE]
+OV_HOLE == -3
+OsReset(ser) == [ser |-> ser, q |-> <<>>, pno |-> 0, part |-> FALSE, pn |-> -1]          \* pn: the page sequence number expected next (-1: any); part: the beginning of a packet is waiting for its rest
+HoleMark == [w |-> -2, g |-> -1, eos |-> FALSE, k |-> 0]
 PagePackets(p) ==
   LET n == IF p.hp > 0 THEN p.hp ELSE Len(p.ws) IN
   [i \in 1..n |-> [w |-> IF p.hp > 0 THEN -1 ELSE p.ws[i], g |-> IF i = n THEN p.gp ELSE -1, eos |-> p.eos /\ i = n, k |-> IF p.hp > 0 THEN 0 ELSE p.k0 + i - 1]]
 \* ogg_stream_pagein: a page of another serial number is refused; a page that claims to continue a packet whose beginning the stream never saw loses it
 PageIn(os, p) ==
   IF p.ser # os.ser THEN os
-  ELSE LET pp == PagePackets(p)
-           qq == IF p.cont /\ os.fresh /\ pp # <<>> THEN Tail(pp) ELSE pp
-       IN [os EXCEPT !.q = @ \o qq, !.fresh = (os.fresh /\ p.cont /\ pp = <<>>)]          \* (a page in the middle of a packet the stream never saw the beginning of leaves it as it was)
+  ELSE LET hole == os.pn # -1 /\ p.pn # os.pn                     \* a page is missing (or there twice): the stream notes a gap, the codec is told once
+           pp == PagePackets(p)
+           nostart == hole \/ ~os.part                            \* nothing here that the page could continue
+           skipall == p.cont /\ nostart /\ pp = <<>>              \* a page in the middle of a packet the stream never saw the beginning of: nothing is kept
+           qq == IF p.cont /\ nostart /\ pp # <<>> THEN Tail(pp) ELSE pp
+       IN [os EXCEPT !.q = @ \o (IF hole THEN << HoleMark >> ELSE <<>>) \o qq, !.pn = p.pn + 1, !.part = (~skipall /\ p.tail)]
 OsPop(os) == IF os.q = <<>> THEN os ELSE [os EXCEPT !.q = Tail(@), !.pno = @ + 1]                         \* ogg_stream_packetout(os, NULL)
 
 (* ------------------------------ the reader ------------------------------ *)
@@ -85,7 +92,8 @@ Fetch(PG, LT, BL, vf0, readp, spanp, fuel) ==
       vf == IF vf0.rs # STREAMSET THEN vf0 ELSE [vf0 EXCEPT !.rs = INITSET, !.d = BK!DecRestart(BL[bl], vf0.hs), !.solid = FALSE, !.gsh = 0] IN
   IF vf.rs = INITSET /\ vf.os.q # <<>>
   THEN LET p == Head(vf.os.q)  no == vf.os.pno  v1 == [vf EXCEPT !.os = OsPop(@)] IN
-       IF p.w = -1 THEN Fetch(PG, LT, BL, v1, readp, spanp, fuel - 1)                                      \* not audio: vorbis_synthesis refuses it, next packet
+       IF p.w = -2 THEN [ret |-> OV_HOLE, vf |-> v1]                                                        \* a gap in the data
+       ELSE IF p.w = -1 THEN Fetch(PG, LT, BL, v1, readp, spanp, fuel - 1)                                 \* not audio: vorbis_synthesis refuses it, next packet
        ELSE IF BK!DecAvail(v1.d) > 0 THEN [ret |-> OV_EFAULT, vf |-> v1]
        ELSE LET d2 == [BK!DecBlockin(BL[bl], v1.d, p.w, no, p.g, p.eos, TRUE) EXCEPT !.seq = no]
                 off2 == IF p.g # -1 /\ ~p.eos
@@ -118,7 +126,7 @@ StreamLink(PG, LT, BL, vf, cur, readp, spanp, fuel) ==
       h == FetchBos(PG, VS, [off |-> vf.pos, base |-> vf.pos, probes |-> <<>>], cur, <<>>, FALSE, 0, KS, Len(PG) + 2) IN
   IF ~h.ok THEN [ret |-> -133, vf |-> [vf EXCEPT !.pos = h.rd.off, !.rs = OPENED]]
   ELSE Fetch(PG, LT, BL, [vf EXCEPT !.pos = h.rd.off, !.rs = STREAMSET, !.ser = IF vf.pinser THEN PG[cur].ser ELSE h.vser, !.link = @ + 1, !.bl = LinkOfSerial(LT, h.vser),          \* (pinser pins the rule "the serial number of the page in hand")
-                                   !.os = [ser |-> h.vser, q |-> <<>>, pno |-> 3, fresh |-> FALSE]], readp, spanp, fuel - 1)
+                                   !.os = [ser |-> h.vser, q |-> <<>>, pno |-> 3, part |-> FALSE, pn |-> -1]], readp, spanp, fuel - 1)
 
 (* ov_read_float(vf, len): [ret, vf, dl]; dl = what was delivered: [link, k, j, n, t0] = n samples, the first being sample j (0..) of those
    the decoder produced from audio packet k of the link, with pcm_offset t0 before the call returned them; n = 0: nothing *)
@@ -141,7 +149,9 @@ Read(PG, LT, BL, vf, len) == ReadLoop(PG, LT, BL, vf, len, 4 * Len(PG) + 8)
 RECURSIVE RawScan(_, _, _, _, _, _, _)
 RawScan(PG, LT, BL, vf, lc, seekpos, fuel) ==
   IF fuel = 0 THEN [ret |-> -999, vf |-> vf]
-  ELSE IF vf.rs >= STREAMSET /\ lc.wq # <<>>
+  ELSE IF vf.rs >= STREAMSET /\ lc.wq # <<>> /\ Head(lc.wq).w = -2
+  THEN RawScan(PG, LT, BL, vf, [lc EXCEPT !.wq = Tail(@), !.skip = TRUE], seekpos, fuel - 1)              \* a gap in the scratch stream: no packet this time round
+  ELSE IF vf.rs >= STREAMSET /\ lc.wq # <<>> /\ ~lc.skip
   THEN LET p == Head(lc.wq)  wq2 == Tail(lc.wq)
            hdr == p.w = -1
            thisblock == IF hdr THEN 0 ELSE BK!Bs(BL[vf.link], p.w)
@@ -158,21 +168,21 @@ RawScan(PG, LT, BL, vf, lc, seekpos, fuel) ==
                 v1 == [vf EXCEPT !.pos = n.pos]
                 crossed == v1.rs >= STREAMSET /\ v1.ser # p.ser /\ p.bos
                 v2 == IF crossed THEN DecodeClear(v1) ELSE v1
-                lc2 == IF crossed THEN [lc EXCEPT !.wq = <<>>] ELSE lc
+                lc2 == IF crossed THEN [lc EXCEPT !.wq = <<>>, !.wpart = FALSE, !.wpn = -1] ELSE lc
             IN IF v2.rs < STREAMSET
                THEN LET lk == LinkOfSerial(LT, p.ser) IN
-                    IF lk = 0 THEN RawScan(PG, LT, BL, v2, lc2, seekpos, fuel - 1)
+                    IF lk = 0 THEN RawScan(PG, LT, BL, v2, [lc2 EXCEPT !.skip = FALSE], seekpos, fuel - 1)
                     ELSE LET v3 == [v2 EXCEPT !.link = lk, !.ser = p.ser, !.rs = STREAMSET, !.os = PageIn(OsReset(p.ser), p)]
                              wos == PageIn(OsReset(p.ser), p)
-                         IN RawScan(PG, LT, BL, v3, [lc2 EXCEPT !.wq = wos.q, !.wfresh = wos.fresh, !.firstflag = (seekpos <= LT[lk].doff), !.lastflag = p.eos], seekpos, fuel - 1)
+                         IN RawScan(PG, LT, BL, v3, [lc2 EXCEPT !.wq = wos.q, !.wpart = wos.part, !.wpn = wos.pn, !.skip = FALSE, !.firstflag = (seekpos <= LT[lk].doff), !.lastflag = p.eos], seekpos, fuel - 1)
                ELSE \* the page goes to both streams (each refuses a foreign serial number); lastflag follows whatever page was read
-                    LET wos == PageIn([ser |-> v2.ser, q |-> lc2.wq, pno |-> 0, fresh |-> lc2.wfresh], p) IN
-                    RawScan(PG, LT, BL, [v2 EXCEPT !.os = PageIn(@, p)], [lc2 EXCEPT !.wq = wos.q, !.wfresh = wos.fresh, !.lastflag = p.eos], seekpos, fuel - 1)
+                    LET wos == PageIn([ser |-> v2.ser, q |-> lc2.wq, pno |-> 0, part |-> lc2.wpart, pn |-> lc2.wpn], p) IN
+                    RawScan(PG, LT, BL, [v2 EXCEPT !.os = PageIn(@, p)], [lc2 EXCEPT !.wq = wos.q, !.wpart = wos.part, !.wpn = wos.pn, !.skip = FALSE, !.lastflag = p.eos], seekpos, fuel - 1)
 RawSeek(PG, LT, BL, vf, seekpos) ==
   IF seekpos < 0 \/ seekpos > DataEnd(PG) THEN [ret |-> OV_EINVAL, vf |-> vf]
   ELSE LET v1 == IF vf.rs >= STREAMSET /\ (seekpos < LT[vf.link].off \/ seekpos >= LinkEnd(PG, LT, vf.link)) THEN DecodeClear(vf) ELSE vf
            v2 == Restart(BL, [v1 EXCEPT !.off = -1, !.os = OsReset(v1.ser), !.pos = seekpos])
-       IN RawScan(PG, LT, BL, v2, [wq |-> <<>>, wfresh |-> TRUE, lastblock |-> 0, accblock |-> 0, lastflag |-> FALSE, firstflag |-> FALSE], seekpos, 6 * Len(PG) + 12)
+       IN RawScan(PG, LT, BL, v2, [wq |-> <<>>, wpart |-> FALSE, wpn |-> -1, skip |-> FALSE, lastblock |-> 0, accblock |-> 0, lastflag |-> FALSE, firstflag |-> FALSE], seekpos, 6 * Len(PG) + 12)
 
 (* ov_pcm_seek_page(vf, target): [ret, vf].  The search itself is VFSeek!Submit on the pages of the link; here: what is done with the page found *)
 LinkOfPos(LT, t) ==      \* for(link=links-1; link>=0; link--){ total -= len; if(pos >= total) break; }
@@ -227,7 +237,8 @@ Discard(PG, LT, BL, vf, lastblock, target, K, fuel) ==
   IF fuel = 0 THEN [ret |-> -999, vf |-> vf]
   ELSE IF vf.os.q # <<>>
   THEN LET p == Head(vf.os.q) IN
-       IF p.w = -1 THEN Discard(PG, LT, BL, [vf EXCEPT !.os = OsPop(@)], lastblock, target, K, fuel - 1)
+       IF p.w = -2 THEN [ret |-> 0, vf |-> [vf EXCEPT !.os = OsPop(@)]]                                    \* a gap: the peek reports -1, which is not OV_HOLE (-3): the loop ends
+       ELSE IF p.w = -1 THEN Discard(PG, LT, BL, [vf EXCEPT !.os = OsPop(@)], lastblock, target, K, fuel - 1)
        ELSE LET thisblock == BK!Bs(BL[vf.link], p.w)
                 off1 == IF lastblock # 0 THEN vf.off + (lastblock + thisblock) \div 4 ELSE vf.off IN
             \* (the pinned tree took the long block of the FIRST link here, vorbis_info_blocksize(vf->vi, 1); K.discardvi = "first" pins that rule)
@@ -276,12 +287,12 @@ RECURSIVE InitSet(_, _, _, _, _)
 InitSet(PG, LT, BL, vf, fuel) ==
   IF fuel = 0 THEN [ret |-> -999, vf |-> vf]
   ELSE IF vf.rs = INITSET THEN [ret |-> 0, vf |-> vf]
-  ELSE LET f == Fetch(PG, LT, BL, vf, TRUE, FALSE, 4 * Len(PG) + 8) IN IF f.ret < 0 THEN f ELSE InitSet(PG, LT, BL, f.vf, fuel - 1)
+  ELSE LET f == Fetch(PG, LT, BL, vf, TRUE, FALSE, 4 * Len(PG) + 8) IN IF f.ret < 0 /\ f.ret # OV_HOLE THEN f ELSE InitSet(PG, LT, BL, f.vf, fuel - 1)
 RECURSIVE InitPrime(_, _, _, _, _)
 InitPrime(PG, LT, BL, vf, fuel) ==
   IF fuel = 0 THEN [ret |-> -999, vf |-> vf]
   ELSE IF vf.rs = INITSET /\ BK!DecAvail(vf.d) > 0 THEN [ret |-> 0, vf |-> vf]
-  ELSE LET f == Fetch(PG, LT, BL, vf, TRUE, FALSE, 4 * Len(PG) + 8) IN IF f.ret < 0 THEN f ELSE InitPrime(PG, LT, BL, f.vf, fuel - 1)
+  ELSE LET f == Fetch(PG, LT, BL, vf, TRUE, FALSE, 4 * Len(PG) + 8) IN IF f.ret < 0 /\ f.ret # OV_HOLE THEN f ELSE InitPrime(PG, LT, BL, f.vf, fuel - 1)
 Lapout(BL, vf) == LET r == BK!DecLapout(BL[vf.link], vf.d, vf.solid) IN
                   [vf EXCEPT !.d = r.d, !.solid = r.solid, !.gsh = @ + (r.d.ret - r.d.centerW) - (vf.d.ret - vf.d.centerW)]
 RECURSIVE GetLap(_, _, _, _, _, _, _)
@@ -337,6 +348,6 @@ OpenedStreaming(PG, LT, BL) ==
       KS == [chunk |-> 65536, near |-> 0, read |-> 2048, backup |-> "begin", handover |-> "refetch", clamp |-> TRUE]
       h == FetchHeaders(PG, VS, [off |-> 0, base |-> 0, probes |-> <<>>], KS) IN
   IF ~h.ok THEN [ret |-> -132, vf |-> <<>>]
-  ELSE [ret |-> 0, vf |-> [rs |-> STREAMSET, link |-> 1, ser |-> h.vser, off |-> 0, d |-> BK!DecRestart(BL[1], 0), os |-> [ser |-> h.vser, q |-> <<>>, pno |-> 3, fresh |-> FALSE],
+  ELSE [ret |-> 0, vf |-> [rs |-> STREAMSET, link |-> 1, ser |-> h.vser, off |-> 0, d |-> BK!DecRestart(BL[1], 0), os |-> [ser |-> h.vser, q |-> <<>>, pno |-> 3, part |-> FALSE, pn |-> -1],
                            pos |-> h.rd.off, gk |-> 0, hs |-> 0, sk |-> FALSE, pinser |-> FALSE, pinbos |-> FALSE, bl |-> LinkOfSerial(LT, h.vser), solid |-> FALSE, gsh |-> 0]]
 =============================================================================
